@@ -1,6 +1,7 @@
 package c18
 
 import (
+	"bytes"
 	"fmt"
 	"net"
 	"strings"
@@ -37,6 +38,8 @@ func varint(x uint64) []byte {
 }
 
 const framingAllocPerByte = 1024
+
+var framingSentinel = []byte("\x00verif-end-of-stream\x00")
 
 // framingChannels: what the node registers (ids and receive capacities of the consensus, tx-pool and block-sync
 // channels, scaled down so that "more than the capacity" is cheap to send).
@@ -107,6 +110,9 @@ func genFrames(t *rapid.T) ([]byte, []string, bool) {
 			for j, k := 0, pick(t, "f.fill.n", 3, 5, 21, 64); j < k; j++ {
 				b = append(b, delimited(&kp2p.Packet{Sum: &kp2p.Packet_PacketMsg{PacketMsg: &kp2p.PacketMsg{ChannelID: ch, Data: make([]byte, 1024)}}})...)
 				account(ch, 1024, false)
+				if mustReject {
+					break // the stream ends with the packet at which the connection must refuse
+				}
 			}
 			d = "over-capacity"
 		case 5: // length prefix only
@@ -138,6 +144,9 @@ func genFrames(t *rapid.T) ([]byte, []string, bool) {
 		}
 		out = append(out, b...)
 		descs = append(descs, d)
+		if mustReject {
+			break // nothing after the packet at which the connection must refuse (the sentinel follows it directly)
+		}
 	}
 	return out, descs, mustReject
 }
@@ -160,7 +169,19 @@ func TestMConnFraming(t *testing.T) {
 		cfg.RecvRate, cfg.SendRate = 1<<40, 1<<40
 		acct = nil
 		a0 := totalAlloc()
+		// When the model says the stream must be refused, the stream is well-formed up to and including the packet that
+		// crosses the capacity, and a sentinel message on another channel follows it directly: its delivery proves that
+		// the connection worked through everything before it without refusing (no timing involved).
+		sentc := make(chan struct{})
+		var sentOnce sync.Once
+		if mustReject {
+			raw = append(raw, delimited(&kp2p.Packet{Sum: &kp2p.Packet_PacketMsg{PacketMsg: &kp2p.PacketMsg{ChannelID: 0x40, EOF: true, Data: framingSentinel}}})...)
+		}
 		mc := conn.NewMConnectionWithConfig(server, framingChannels, func(ch byte, b []byte) {
+			if mustReject && ch == 0x40 && bytes.Equal(b, framingSentinel) {
+				sentOnce.Do(func() { close(sentc) })
+				return
+			}
 			received.Add(1)
 			recvBytes.Add(int64(len(b)))
 		}, func(r interface{}) {
@@ -197,16 +218,23 @@ func TestMConnFraming(t *testing.T) {
 		case <-time.After(hangGuard):
 			hung = true
 		}
-		// All bytes have been handed over (or the connection gave up) - but the connection may still be working through
-		// what it buffered, and closing our end now would make its pong replies fail first and mask its verdict. Give it
-		// time to reach that verdict: generously when the model says it must refuse, briefly otherwise.
-		grace := 5 * time.Millisecond
+		// All bytes have been handed over (or the connection gave up). Closing our end now could make a pong reply fail
+		// first and mask the verdict on the bytes still buffered, so: where the model demands a refusal, wait for the
+		// refusal or for the sentinel behind the offending packet; otherwise give the connection a moment.
+		sentinelDelivered := false
 		if mustReject {
-			grace = 2 * time.Minute
-		}
-		select {
-		case <-errc:
-		case <-time.After(grace):
+			select {
+			case <-errc:
+			case <-sentc:
+				sentinelDelivered = true
+			case <-time.After(hangGuard):
+				hung = true
+			}
+		} else {
+			select {
+			case <-errc:
+			case <-time.After(5 * time.Millisecond):
+			}
 		}
 		// closing makes recvRoutine see EOF, so onError always fires
 		_ = client.Close()
@@ -238,8 +266,8 @@ func TestMConnFraming(t *testing.T) {
 		}
 		if mustReject {
 			classes = append(classes, "mconn:model-says-must-reject")
-			if consumed {
-				if ev.Violation(t, "mconn.over-capacity-not-refused", text(), "an unterminated message grew past RecvMessageCapacity and the peer was not dropped (connection ended with %q after consuming all %d bytes)", e, len(raw)) {
+			if sentinelDelivered {
+				if ev.Violation(t, "mconn.over-capacity-not-refused", text(), "an unterminated message grew past RecvMessageCapacity and the peer was not dropped: the message sent behind the offending packet was delivered (connection ended with %q after consuming all %d bytes)", e, len(raw)) {
 					return
 				}
 			}
